@@ -106,6 +106,8 @@ type loopInfo struct {
 	body    map[*ssa.BasicBlock]bool
 	ordinal int
 	spec    *LoopSpec
+	excl    map[string][]Term
+	written []string
 }
 
 func (x *Exec) emit(line string) { x.lines = append(x.lines, line) }
@@ -114,8 +116,12 @@ func (x *Exec) define(prefix string, t Term) Term {
 	if x.inQuant > 0 {
 		return t // bound variables may occur: keep the term in place
 	}
+	// A declared constant with a defining equation rather than a define-fun macro:
+	// macros are expanded inside quantifier patterns, which breaks E-matching on
+	// ite-merged heaps and on arithmetic index terms.
 	n := x.S.Fresh(prefix)
-	x.emit(fmt.Sprintf("(define-fun %s () %s %s)", n, t.Sort, t.S))
+	x.emit(fmt.Sprintf("(declare-const %s %s)", n, t.Sort))
+	x.emit(fmt.Sprintf("(assert (= %s %s))", n, t.S))
 	return Term{n, t.Sort}
 }
 
@@ -126,6 +132,19 @@ func (x *Exec) declare(prefix, srt string) Term {
 	n := x.S.Fresh(prefix)
 	x.emit(fmt.Sprintf("(declare-const %s %s)", n, srt))
 	return Term{n, srt}
+}
+
+// declareEq names a term with a declared constant (not a macro): solvers expand
+// define-fun inside quantifier patterns, which makes patterns over ite-merged
+// arrays invalid; a constant is a legal pattern subterm.
+func (x *Exec) declareEq(prefix string, t Term) Term {
+	if x.inQuant > 0 {
+		return t
+	}
+	n := x.S.Fresh(prefix)
+	x.emit(fmt.Sprintf("(declare-const %s %s)", n, t.Sort))
+	x.emit(fmt.Sprintf("(assert (= %s %s))", n, t.S))
+	return Term{n, t.Sort}
 }
 
 func (x *Exec) assume(t Term) {
